@@ -1,5 +1,6 @@
 import IGVerif.Props.Ties
 import IGVerif.Spec.PrivateLink
+import IGVerif.Proofs.PrivateLink
 /-! C16 — private properties and annotations attach exactly to the values coded for. -/
 namespace IGVerif.C16
 open IGVerif
@@ -51,5 +52,26 @@ theorem unsuffixed_components_take_nothing (fs : PStmt) (cf pf : Nat)
 theorem private_keeps_component_type (v : LeafV) (t : Str) (sl sr : List Str) (m : Meta) (p : List PNode)
     (h : v.node = .leaf t sl sr m p) : asPrivate v = .leaf t sl sr { m with ct := v.comp } p := by
   simp [asPrivate, h, PNode.withMeta]
+
+/-- **Withdrawn from the shared properties**: after the private values have been taken out, the
+    shared property tree holds exactly the values at the paths that were not matched, in their
+    written order — no private value stays shared, no shared value is lost -/
+theorem shared_tree_keeps_exactly_the_unmatched (paths : List (List Bool)) (p : PNode) :
+    leafNodesOpt (removeLeaves paths p []) =
+      ((leavesWithPath p []).filter (fun x => !paths.contains x.1)).map (·.2) :=
+  removeLeaves_leaves paths p []
+
+/-- attaching private nodes changes no value, operator or shared text of the component -/
+theorem attaching_changes_only_private_lists (links : List (List Bool × List PNode)) (c : PNode) :
+    eraseAttached (attachPrivate links c []) = eraseAttached c :=
+  attachPrivate_shape links c []
+
+/-- a value receives exactly the private nodes listed for its own path: what `linkPair` lists
+    there are the property values whose suffix equals the suffix of this value's annotation -/
+theorem value_receives_its_own_private_nodes (links : List (List Bool × List PNode)) (t : Str) (sl sr : List Str) (m : Meta)
+    (p : List PNode) (rp : List Bool) :
+    attachPrivate links (.leaf t sl sr m p) rp =
+      .leaf t sl sr m (p ++ ((links.find? (fun k => k.1 = rp.reverse)).map (·.2)).getD []) :=
+  attachPrivate_leaf links t sl sr m p rp
 
 end IGVerif.C16
